@@ -173,6 +173,9 @@ pub fn run_c07(tier: &str) -> Report {
     let (npairs, v) = crate::checks::longlists::after_refusal(tier);
     rep.sink.extend(v);
     rep.set("refused_then_valid_call_pairs", json!(npairs));
+    let (npairs, v) = crate::checks::longlists::collision_circuits(tier, "C07/after-call");
+    rep.sink.extend(v);
+    rep.set("collision_family_call_pairs", json!(npairs));
 
     rep.set("states", json!(states));
     rep.set("transitions", json!(transitions.load(Ordering::Relaxed)));
@@ -380,6 +383,11 @@ pub fn run_c20(tier: &str) -> Report {
     }
     rep.sink.extend(vs);
 
+    // histories: ancestors and descendants must not depend on what the thread asked before (a wrong
+    // ancestor breaks the order claims); collision families of cells, all ordered pairs of calls
+    let (npairs, v) = crate::checks::longlists::collision_circuits(tier, "C20/ancestor-or-descendant-after-call");
+    rep.sink.extend(v);
+    rep.set("collision_family_call_pairs", json!(npairs));
     rep.set("states", json!(all.len() as u64 + 12));
     rep.set("transitions", json!(transitions.load(Ordering::Relaxed)));
     rep.set("traces_validated_against_impl", json!(subtrees.load(Ordering::Relaxed)));
@@ -410,4 +418,54 @@ pub fn replay_c07(case: &Value) -> Vec<Viol> {
         return check_cell_c07(c, 8, &t);
     }
     vec![]
+}
+
+pub fn replay_c20(case: &Value) -> Vec<Viol> {
+    if let Some(v) = crate::checks::longlists::replay(case) {
+        return v;
+    }
+    let hx = |k: &str| case[k].as_str().and_then(|s| u64::from_str_radix(s, 16).ok());
+    let mut out = Vec::new();
+    match case["kind"].as_str().unwrap_or("") {
+        "pair" => {
+            if let (Some(a), Some(b)) = (hx("a"), hx("b")) {
+                let r = rc::resolution(a).unwrap_or(0);
+                for q in 1..=r {
+                    match (subj::parent(a, Some(q)), subj::parent(b, Some(q))) {
+                        (Ok(pa), Ok(pb)) if pa <= pb => {}
+                        (pa, pb) => out.push(viol("C20/ancestor-order", format!("ancestors at r={} are {:?} and {:?}", q, pa.map(subj::hex), pb.map(subj::hex)), case.clone())),
+                    }
+                }
+                for d in 1..=4 {
+                    if r + d > 29 {
+                        break;
+                    }
+                    if let (Ok(da), Ok(db)) = (subj::children(a, Some(r + d)), subj::children(b, Some(r + d))) {
+                        if da.iter().max() >= db.iter().min() {
+                            out.push(viol("C20/descendant-order", format!("descendants at depth {} are not ordered", d), case.clone()));
+                        }
+                    }
+                }
+            }
+        }
+        "subtree" | "cell" => {
+            if let Some(c) = hx("id") {
+                let r = rc::resolution(c).unwrap_or(0);
+                for d in 1..=4 {
+                    if r + d > 29 {
+                        break;
+                    }
+                    if let Ok(ds) = subj::children(c, Some(r + d)) {
+                        let want: std::collections::HashSet<u64> = rc::descendants(c, r + d).into_iter().collect();
+                        let got: std::collections::HashSet<u64> = ds.iter().copied().collect();
+                        if got != want {
+                            out.push(viol("C20/interval-count", format!("descendants of {} at depth {} differ from the hierarchy", subj::hex(c), d), case.clone()));
+                        }
+                    }
+                }
+            }
+        }
+        _ => {}
+    }
+    out
 }
